@@ -233,8 +233,103 @@ def generate():
         lines, e = translate_block(b)
         e = e.replace("BELOW_sq1", "(below sq1)").replace("BELOW_sq2", "(below sq2)")
         out.append(lean_def(nm, "(sq1 sq2 : Nat)", lines, e))
+    out.append(time_budget(open(os.path.join(REPO, "src/search/root.rs")).read()))
     out.append("end Rawr.R\n")
     return "\n".join(out)
+
+
+class ArithParser(Parser):
+    """u32 arithmetic of the clock arms: identifiers, literals, + - * / , .unwrap_or(n) .max(n) .min(n) .saturating_sub(n), parentheses, `as T`"""
+    LEVELS = [["+", "-"], ["*", "/"]]
+    LEAN = {"+": "+", "-": "-", "*": "*", "/": "/"}
+
+    def unary(self):
+        return self.postfix()
+
+    def postfix(self):
+        e = self.primary()
+        while True:
+            if self.peek() == ".":
+                self.eat(".")
+                name = self.eat()
+                self.eat("(")
+                arg = None if self.peek() == ")" else self.expr()
+                self.eat(")")
+                fn = {"unwrap_or": "Option.getD", "max": "Nat.max", "min": "Nat.min", "saturating_sub": "Nat.sub"}.get(name)
+                if fn is None or arg is None:
+                    raise TranslateError("clock arithmetic: method not supported: " + name)
+                e = f"({fn} {e} {arg})"
+            elif self.peek() == "as":
+                self.eat("as")
+                self.eat()
+            else:
+                return e
+
+    def primary(self):
+        tok = self.eat()
+        if tok == "(":
+            e = self.expr()
+            self.eat(")")
+            return e
+        if re.match(r"\d", tok):
+            return re.sub(r"(u64|u32|u8|i32|u128)$", "", tok)
+        if re.match(r"[A-Za-z_]", tok):
+            return tok
+        raise TranslateError("clock arithmetic: unexpected token " + tok)
+
+
+ATOK = re.compile(r"\s*(\d+(?:u64|u32|u8|i32|u128)?|[A-Za-z_][A-Za-z0-9_]*|[().,+*/-])")
+
+
+def arith(src):
+    pos, toks = 0, []
+    while src[pos:].strip():
+        m = ATOK.match(src, pos)
+        if not m:
+            raise TranslateError("clock arithmetic: cannot tokenize near: " + src[pos:pos + 40])
+        toks.append(m.group(1))
+        pos = m.end()
+    p = ArithParser(toks)
+    e = p.expr()
+    if p.peek() is not None:
+        raise TranslateError("clock arithmetic: trailing tokens: " + str(p.peek()))
+    return e
+
+
+def time_budget(root):
+    """the two clock arms of `should_stop` in search::root::root"""
+    root = re.sub(r"//[^\n]*", "", root)
+    m = re.search(r"settings::Type::Time\(\s*wtime\s*,\s*btime\s*,\s*_\s*,\s*_\s*,\s*mtg\s*\)\s*=>\s*\{(.*?)\n\s*\}\s*\n\s*settings::Type::Movetime", root, re.S)
+    if not m:
+        raise TranslateError("root.rs: the Time arm of should_stop was not recognised")
+    body = norm(m.group(1))
+    m2 = re.fullmatch(r"let ustime = if pos\.get_turn\(\) == Colour::White \{ wtime \} else \{ btime \}; (.*)", body)
+    if not m2:
+        raise TranslateError("root.rs: the Time arm does not start with the choice of the mover's clock: " + body[:120])
+    rest = m2.group(1).strip()
+    lets = []
+    while rest.startswith("let "):
+        ml = re.match(r"let (?:mut )?([a-z_][a-z0-9_]*) = ([^;]*); (.*)", rest)
+        if not ml:
+            raise TranslateError("root.rs: Time arm: statement not supported: " + rest[:80])
+        lets.append((ml.group(1), arith(ml.group(2))))
+        rest = ml.group(3).strip()
+    m3 = re.fullmatch(r"start\.elapsed\(\)\.as_millis\(\) >= (.*)", rest)
+    if not m3:
+        raise TranslateError("root.rs: Time arm: the comparison with the elapsed time was not recognised: " + rest[:120])
+    e = arith(m3.group(1))
+    mm = re.search(r"settings::Type::Movetime\(\s*time\s*\)\s*=>\s*start\.elapsed\(\)\.as_millis\(\)\s*>=\s*([^,\n]*),", root)
+    if not mm:
+        raise TranslateError("root.rs: the Movetime arm of should_stop was not recognised")
+    e2 = arith(mm.group(1))
+    ls = "".join(f"  let {v} := {x}\n" for v, x in lets)
+    return ("-- search::root::root, closure should_stop: `start.elapsed().as_millis() >= <this>` (u32 arithmetic)\n"
+            f"def timeBudget (whiteToMove : Bool) (wtime btime : Nat) (mtg : Option Nat) : Nat :=\n  let ustime := if whiteToMove then wtime else btime\n{ls}  {e}\n\n"
+            f"def movetimeBudget (time : Nat) : Nat :=\n  {e2}\n")
+
+
+def norm(s):
+    return re.sub(r"\s+", " ", s).strip()
 
 
 def main():
